@@ -81,7 +81,7 @@ class LocalInference:
         self.mirror_descent(measurements, total, **options)
         return self.model
 
-    def mirror_descent_auto(self, alpha, iters, callback=None):
+    def mirror_descent_auto(self, alpha, iters, callback=None, restarts=0):
         model = self.model
         theta0 = model.potentials
         messages0 = deepcopy(model.messages)
@@ -98,11 +98,11 @@ class LocalInference:
             #print(np.sqrt(dL.dot(dL)), np.sqrt(theta.dot(theta)))
             mu = model.belief_propagation(theta)
             if l > prev_l:
-                if t <= 50:
+                if t <= 50 and restarts < 100: # an uptick that the step size does not cause must not restart for ever
                     if self.log: print('Reducing learning rate and restarting', alpha/2)
                     model.potentials = theta0
                     model.messages = messages0
-                    return self.mirror_descent_auto(alpha/2, iters, callback)
+                    return self.mirror_descent_auto(alpha/2, iters, callback, restarts+1)
                 else:
                     #print('Reducing learning rate and continuing', alpha/2)
                     if hasattr(model, 'damping'): # only region graphs are damped
